@@ -44,7 +44,7 @@ def typed(ast):
     if k == 'un':
         t = typed(ast[2])
         if ast[1] == '!':
-            return 'bool' if t == 'bool' else None
+            return 'bool' if t == 'bool' else ('boolc' if t == 'int' else None)   # !int type-checks in conditions only
         return 'int' if t == 'int' else None
     a, b = typed(ast[2]), typed(ast[3])
     need, res = op_type(ast[1])
@@ -81,7 +81,7 @@ def extra_exprs():
              "$last - '0'", "$last + s.len", "s[1] + 1", "s[v0] * 2", "s[s.len - 1]", "v0 * 10 + ($last - '0')", "(v0 | ($last & 127)) << 7", "0x7f & v1", "0b101 ^ v2",
              "'a' + 1", "true && f", "v0 + true", "v0 / 3 % 5", "v0 % 7 / 2", "v0 - v1 - v2", "v0 / v1 / v2", "v0 >> 1 + 1", "v0 & v1 == v2", "v0 == v1 & v2",
              "v0 < v1 == f", "v0 | v1 && f", "(v0 & 0xff) == s.len", "v0 * v1 + v2 * v0", "2147483647 - v0", "v0 + 2147483647", "-2147483647 - 1 + v0", "u[0] + u.len", "v0 << v1", "v0 >> v1",
-             "s[0 - 1] + 1", "s[4]", "u[2] - u[0]"]
+             "s[0 - 1] + 1", "s[4]", "u[2] - u[0]", "!v0", "!(v0 & 4)", "!s.len", "!(v0 - v1)", "!s[1]", "!$last", "!(v0 + 1)", "!v2"]
     out = []
     for t in texts:
         try:
@@ -274,6 +274,8 @@ def work(job):
             sites = ['assign', 'append', 'ifact'] + ([] if uses_last(ast) else ['ifpoint'])
         elif kind == 'bool':
             sites = ['ifact', 'boolassign'] + ([] if uses_last(ast) else ['ifpoint'])
+        elif kind == 'boolc':
+            sites = ['ifact'] + ([] if uses_last(ast) else ['ifpoint'])
         if job['tier'] == 'quick' and len(sites) > 2:
             rnd = random.Random(hash(job['text']) & 0xffff)
             sites = sites[:1] + [rnd.choice(sites[1:])]
